@@ -64,7 +64,7 @@ def main():
                        "construction); not claimed")})
     man = {
         "version": 1,
-        "setup_cmd": "python3 verif.py build asan",
+        "setup_cmd": "python3 verif.py build asan tsan",
         "hooks": {
             "guard": "OOMD_VERIF",
             "enable": "-DOOMD_VERIF is passed by tools/simbuild.py when it "
